@@ -111,7 +111,7 @@ func RequestSpace(r *rand.Rand, p *Prepared, maxUsersets, maxCtx int) (subjects 
 	}
 	for _, t := range p.Ref.TypeNames() {
 		for _, rel := range p.Ref.RelationNames(t) {
-			for _, o := range gen.Objects(t) {
+			for _, o := range p.Case.ObjectsOf(t) {
 				nodes = append(nodes, [2]string{o, rel})
 			}
 		}
